@@ -19,7 +19,7 @@ run.  Two kinds of statements:
 What float64 rounding adds to the exact results is not covered here: the correspondence check
 compares the real code with this model within relative 2⁻⁵⁰ (exactly where IEEE arithmetic is
 exact).  The model is of the code repaired by fixes/C15-sniffunit-mus.patch and
-fixes/C15-autoscale-minint64.patch.
+fixes/C15-autoscale-minint64.patch and fixes/C15-canonical-name-is-a-unit-name.patch.
 -/
 namespace PV.Props.C15
 open PV PV.Measure
@@ -35,8 +35,9 @@ theorem factors_positive_distinct : factorsPosB table = true ∧ factorsDistinct
 /-- no alias of one family — nor its plural — is an alias of another family -/
 theorem aliases_disjoint_across_families : aliasesDisjointB table = true := by decide
 
-/-- sniffing any listed alias, its plural (aliases of two or more bytes), and the upper-case
-spellings of both finds exactly the alias's unit; aliases are listed in lower case -/
+/-- sniffing a unit's canonical (printed) name, any listed alias, the plural of names of two or
+more bytes, and the upper-case spellings of all of them finds exactly that unit; aliases are
+listed in lower case -/
 theorem every_alias_recognised :
     everyAliasRecognisedB table = true ∧ aliasesLowerB table = true := by decide
 
@@ -308,6 +309,55 @@ theorem formatValue_labels_divided_value (T : Table) (hpos : factorsPosB T = tru
 
 example : scaleByRatio 4194304 ⟨1, 1024⟩ = 4096 ∧ scaleByRatio (-7) ⟨1, 2⟩ = -3 ∧
     (formatValue table ⟨1, 1024⟩ 4194304 [98] /- "b" -/ sMinimum).2 = [107, 66] /- "kB" -/ := by decide
+
+/-! ## the one output unit of a report (`unit=minimum`) -/
+
+/-- **The unit `selectOutputUnit` chooses does not depend on the signs of the values**: two
+graphs whose nodes have the same magnitudes, node by node (a diff profile and its mirror image,
+or any subset of entries negated), get the same output unit. -/
+theorem selectOutputUnit_sign_invariant (T : Table) (a b : List (Int × Int)) (h : SameMagnitudes a b)
+    (total : Int) (r : Q) (su : Str) (cg : Bool) :
+    selectOutputUnit T a total r su cg = selectOutputUnit T b total r su cg :=
+  selectOutputUnit_congr T h total r su cg
+
+/-- in particular under negation of every value -/
+theorem selectOutputUnit_neg (T : Table) (a : List (Int × Int)) (total : Int) (r : Q) (su : Str) (cg : Bool) :
+    selectOutputUnit T (a.map fun n => (-n.1, -n.2)) total r su cg = selectOutputUnit T a total r su cg :=
+  selectOutputUnit_congr T (sameMagnitudes_neg a) total r su cg
+
+example : SameMagnitudes [(20000, 20000), (6000, 6000), (-3, -3)] [(-20000, -20000), (6000, 6000), (3, 3)] ∧
+    selectOutputUnit table [(20000, 20000), (6000, 6000), (-3, -3)] 26003 Q.one [109, 115] /- "ms" -/ false
+      = [109, 115] := by
+  refine ⟨?_, by decide⟩
+  exact .cons rfl rfl (.cons rfl rfl (.cons rfl rfl .nil))
+
+/-- **The smallest non-zero value stays visible**: without a ratio, for a sample unit `ua` of family
+`F` and a graph whose smallest non-zero magnitude is `m`, the chosen unit is a unit `u` of `F` that
+keeps `m` — or, when the ×100 rule applies, `100·m` — at or above one, so `m` is printed as at
+least 0.01 and never as 0. -/
+theorem selectOutputUnit_keeps_smallest_visible (T : Table) (hpos : factorsPosB T = true)
+    (nodes : List (Int × Int)) (total : Int) (su : Str) (cg : Bool)
+    (F : Family) (ua : MUnit) (hf : firstFamily T su = some (F, ua)) (hm : minMagnitude nodes ≠ 0) :
+    ∃ u ∈ F.units, (u.name ≠ [] → selectOutputUnit T nodes total Q.one su cg = u.name) ∧
+      (Qual ((Q.ofInt (minMagnitude nodes : Nat)).mul ua.factor) u ∨
+       Qual ((Q.ofInt (100 * (minMagnitude nodes : Nat))).mul ua.factor) u) := by
+  have hauto : isAuto sMinimum = true := by decide
+  have hm' : ((minMagnitude nodes : Nat) : Int) ≠ 0 := by exact_mod_cast hm
+  have h100 : (100 * ((minMagnitude nodes : Nat) : Int)) ≠ 0 := by omega
+  obtain ⟨a1, _⟩ := autoscale_largest_ge_one T hpos (minMagnitude nodes : Nat) su sMinimum F ua hf hauto
+  obtain ⟨a2, _⟩ := autoscale_largest_ge_one T hpos (100 * (minMagnitude nodes : Nat)) su sMinimum F ua hf hauto
+  obtain ⟨u1, hu1, e1, q1, _⟩ := a1 hm'
+  obtain ⟨u2, hu2, e2, q2, _⟩ := a2 h100
+  have hact : (Q.ltB Q.zero Q.one && !decide (Q.eqv Q.one Q.one)) = false := by decide
+  unfold selectOutputUnit
+  simp only [hact, hm', if_false, Bool.false_eq_true]
+  split
+  · refine ⟨u2, hu2, ?_, Or.inr q2⟩
+    intro hne
+    rw [e2]; simp [hne]
+  · refine ⟨u1, hu1, ?_, Or.inl q1⟩
+    intro hne
+    rw [e1]; simp [hne]
 
 /-! ## harmonising several profiles -/
 
